@@ -1,0 +1,71 @@
+//go:build verif
+
+package isaacstates
+
+import "fmt"
+
+// Verification hooks (build tag verif): a view of the vote records and of the
+// record pool, and an entry point to clean().
+
+type VerifRecord struct {
+	Key      string // key in the records map
+	Ptr      string // identity of the record
+	SP       string // the record's own stage point
+	IsSC     bool
+	Voted    []string // nodes in `voted`
+	Ballots  []string // nodes in `ballots`
+	Finished bool
+}
+
+func (box *Ballotbox) VerifRecords() []VerifRecord {
+	var rs []VerifRecord
+
+	box.vrs.Traverse(func(key string, vr *voterecords) bool {
+		vr.RLock()
+		defer vr.RUnlock()
+
+		r := VerifRecord{Key: key, Ptr: fmt.Sprintf("%p", vr), SP: vr.sp.String(), IsSC: vr.isc, Finished: vr.vp != nil}
+		for k := range vr.voted {
+			r.Voted = append(r.Voted, k)
+		}
+
+		for k := range vr.ballots {
+			r.Ballots = append(r.Ballots, k)
+		}
+
+		rs = append(rs, r)
+
+		return true
+	})
+
+	return rs
+}
+
+func (box *Ballotbox) VerifRemoved() []string {
+	var ps []string
+
+	_ = box.removed.Get(func(removed []*voterecords, _ bool) error {
+		for i := range removed {
+			ps = append(ps, fmt.Sprintf("%p", removed[i]))
+		}
+
+		return nil
+	})
+
+	return ps
+}
+
+func (box *Ballotbox) VerifClean() { box.clean() }
+
+// VerifInstrumentPool reports every record handed back to the pool; the returned
+// function restores the original.
+func VerifInstrumentPool(onPut func(ptr string)) func() {
+	orig := voterecordsPoolPut
+
+	voterecordsPoolPut = func(vr *voterecords) {
+		onPut(fmt.Sprintf("%p", vr))
+		orig(vr)
+	}
+
+	return func() { voterecordsPoolPut = orig }
+}
